@@ -290,12 +290,22 @@ def build(E):
     E.loops[(f"{AC}.__init__", 1)] = init_loop("deny_networks", "deny_list", 1)
 
     # ---------------- ServerConfig.get_access_control_config ------------------------------
+    from pyvc import fsmodel
+    fsmodel.install(E)       # ServerConfig.__post_init__ looks at document_root / certificate paths
     def gac_args(ctx):
         allow = mk(ctx, T.union(T.none, T.make(lambda c, h: strseq(c, "w_allow"))), "w_allow", True)
         deny = mk(ctx, T.union(T.none, T.make(lambda c, h: strseq(c, "w_deny"))), "w_deny", True)
-        sc = ctx.alloc(CFG, {"enable_access_control": mk(ctx, T.bool(), "enabled", True),
-                             "access_control_allow_list": allow, "access_control_deny_list": deny,
-                             "access_control_default_allow": mk(ctx, T.bool(), "w_default_allow", True)})
+        # the configuration object is the one the REAL dataclass constructor (incl. __post_init__) produces for the
+        # written values - so anything __post_init__ does to the lists is part of what is checked
+        from pyvc.values import VClass, Infeasible
+        kwargs = {"document_root": VStr(z3.String("document_root_arg")), "enable_access_control": mk(ctx, T.bool(), "enabled", True),
+                  "access_control_allow_list": allow, "access_control_deny_list": deny,
+                  "access_control_default_allow": mk(ctx, T.bool(), "w_default_allow", True)}
+        ctx.ghost["written"] = (allow, deny)
+        try:
+            sc = E.instantiate(ctx, None, VClass(CFG), [], kwargs)
+        except PyRaise:
+            raise Infeasible()
         return [sc], {}
 
     def gac_post(ctx, old, args, outcome):
@@ -303,7 +313,7 @@ def build(E):
             return z3.BoolVal(False)
         (sc,) = args
         res = outcome[1]
-        al, dl_ = ctx.getf(sc, "access_control_allow_list"), ctx.getf(sc, "access_control_deny_list")
+        al, dl_ = ctx.ghost["written"]          # the WRITTEN lists (constructor arguments), not whatever the object holds now
         na, nd = entries(al)[0], entries(dl_)[0]
         enabled = ctx.getf(sc, "enable_access_control").z
         default = ctx.getf(sc, "access_control_default_allow").z
